@@ -186,6 +186,12 @@ func (s *SwapStateMachine) SendEvent(event EventType, eventCtx EventContext) (bo
 	if event == Event_Done {
 		return true, nil
 	}
+	// An event that the current state does not handle must not change the
+	// swap: reject it before its context is applied to the swap data and
+	// persisted.
+	if _, err := s.getNextState(event); err != nil {
+		return false, ErrEventRejected
+	}
 	var err error
 
 	// validate and apply event context
